@@ -13,14 +13,13 @@ from . import util
 
 
 # ------------------------------------------------------------------ versions
-def _specifiers(prog_root: str) -> dict:
+def _specifiers(prog: Program) -> dict:
     out = {}
     for rel in ("pyproject.toml", "ci/emu_base/pyproject.toml"):
-        path = os.path.join(prog_root, rel)
-        if not os.path.exists(path):
+        try:
+            data = tomllib.loads(prog.read(rel))
+        except FileNotFoundError:
             raise AnalysisError(f"APICOMPAT: {rel} not found")
-        with open(path, "rb") as f:
-            data = tomllib.load(f)
         deps = data.get("project", {}).get("dependencies", [])
         spec = None
         for d in deps:
@@ -191,7 +190,7 @@ def check(ctx) -> None:
     # --- admitted versions
     from packaging.specifiers import SpecifierSet
     from packaging.version import Version
-    specs = _specifiers(prog.root)
+    specs = _specifiers(prog)
     vals = set(specs.values())
     ctx.ob("APICOMPAT-spec", "specifiers agree", "pyproject.toml:25", len(vals) == 1,
            f"both pyproject files declare pulser-core{next(iter(vals))}" if len(vals) == 1 else
